@@ -374,10 +374,10 @@ Section Exec.
 End Exec.
 
 (** The whole gateway: normalise, plan, execute, delete the _federation keys (Executor.Execute). *)
-Definition fed_exec (w : world) (g : gschema) (pick : list string -> option string)
+Definition fed_exec_gen (prune : bool) (w : world) (g : gschema) (pick : list string -> option string)
            (dedupe repaired : bool) (q : list node) : option json :=
   let fuel := 2 * depth_list q + 4 in
-  match flatten fuel dedupe g (RObj "Query") (Some q) with
+  match flatten_gen prune fuel dedupe g (RObj "Query") (Some q) with
   | Some (Some flat) =>
       match plan_root g pick fuel flat with
       | Some p =>
@@ -390,6 +390,10 @@ Definition fed_exec (w : world) (g : gschema) (pick : list string -> option stri
   | _ => None
   end.
 
+(** the gateway as repaired ([fed_exec_gen false]: the flattener kept selections excluded by their own directives
+    while it grouped by alias) *)
+Definition fed_exec := fed_exec_gen true.
+
 (** * Reference semantics: one combined server.
     GraphQL's CollectFields / ExecuteSelectionSet: collect the fields of the selection set that apply to the
     object (fragments inlined, @skip/@include honoured), group them by response key, concatenate the
@@ -397,9 +401,6 @@ Definition fed_exec (w : world) (g : gschema) (pick : list string -> option stri
     fields are collected does not matter for it; [collect] visits a selection set's own fields before its
     fragments' (the order flattenFragments uses).  [tn = true] is the same semantics with __typename reported
     on every object reached through a union-typed field (what the gateway's answer always carries). *)
-Definition incl_field (n : node) : bool :=
-  match n with NField _ _ _ _ dirs _ _ => should_include dirs | NFrag _ _ _ => false end.
-
 Fixpoint collect_frag (g : gschema) (obj : string) (n : node) {struct n} : list node :=
   match n with
   | NField _ _ _ _ _ _ _ => []
